@@ -707,7 +707,9 @@ func c16hGenReq(r *vfRand, host string, strict bool, quic bool) *c16hReq {
 			q.Want = strings.ToLower(l)
 		case 6:
 			q.Path, q.Want, q.pathKind = vfPick(r, []string{"/dns-query/a/b", "/DNS-Query/" + c16hLabel(r), "/x/dns-query",
-				"/dns-query/%E2%84%AAate", "/dns-query/m%C4%B0ke"}), "!", "extra-or-route"
+				"/dns-query/%E2%84%AAate", "/dns-query/m%C4%B0ke",
+				// round 6: a doubly encoded label is no label after the one decoding
+				"/dns-query/my%252Dphone", "/dns-query/%2561lice", "/dns-query/bo%2562/", "/dns-query/a%2Fb"}), "!", "extra-or-route"
 		default:
 			q.Path, q.Want, q.pathKind = "/dns-query/bad!id", "!", "bad-label"
 		}
@@ -818,6 +820,9 @@ func c16hPrelude() (hs []*c16hHist) {
 		c16hMk(c16hDoHTLS, "\u0130van."+H, "/dns-query", H, "", "!"),
 		c16hMk(c16hDoHTLS, H, "/dns-query/%E2%84%AAate", H, "", "!"),
 		c16hMk(c16hDoHTLS, H, "/dns-query/Kate", H, "", "kate"),
+		c16hMk(c16hDoHTLS, H, "/dns-query/my%2Dphone", H, "", "my-phone"),
+		c16hMk(c16hDoHTLS, H, "/dns-query/my%252Dphone", H, "", "!"),
+		c16hMk(c16hDoHPlain, "", "/dns-query/%2561lice", "victim."+H, "", "!"),
 		c16hRe(H, true, true),
 		c16hMk(c16hUDP, "", "", "", "", ""),
 		c16hMk(c16hDoT, "\u212a."+H, "", "", "", "!"),
